@@ -259,23 +259,41 @@ func verifH_Serve() {
 	verifAssert(verifLiveGoroutines() == 0, "C14.serve-no-goroutine-left")
 }
 
+// vMultiStub hands out one prepared stream double per OpenReverseTunnel call.
+type vMultiStub struct {
+	tunnelpb.TunnelServiceClient
+	streams []*vRevClientStream
+	next    int
+}
+
+func (s *vMultiStub) OpenReverseTunnel(ctx context.Context, opts ...grpc.CallOption) (grpc.BidiStreamingClient[tunnelpb.ServerToClient, tunnelpb.ClientToServer], error) {
+	st := s.streams[s.next]
+	s.next++
+	st.ctx = ctx
+	return st, nil
+}
+
 // S-RTS (C04 C10): the stop state machine of the reverse tunnel server with
 // k registered instances whose Serve calls return once they are half-closed.
 func verifH_StopStates() {
-	srv := NewReverseTunnelServer(&vStub{})
 	k := verifChoice("instances", 3)
 	var streams []*vRevClientStream
+	stubs := &vMultiStub{}
+	srv := NewReverseTunnelServer(stubs)
+	srv.handlers = vHandlers(&vHandlerLog{})
+	serveReturned := 0
 	for i := 0; i < k; i++ {
-		s := &vRevClientStream{hangup: make(chan struct{}), hold: true, ctx: context.Background()}
-		w := &threadSafeOpenReverseTunnelClient{TunnelService_OpenReverseTunnelClient: s}
-		verifAssert(srv.addInstance(w) == nil, "C10.active-server-accepts-instances")
+		s := &vRevClientStream{hangup: make(chan struct{}), hold: true}
 		streams = append(streams, s)
+		stubs.streams = append(stubs.streams, s)
 		verifGo("serve", func() {
-			// a Serve call: returns when its stream ends
-			_, _ = s.Recv()
-			srv.wg.Done()
+			// a Serve call through the public API: returns when its stream ends
+			started, _ := srv.Serve(context.Background())
+			verifAssert(started, "C10.active-server-accepts-tunnels")
+			serveReturned++
 		})
 	}
+	verifDrain() // every Serve call is now parked in Recv
 	stopReturned, gracefulReturned := false, false
 	idleWait := false
 	op := verifChoice("op", 4)
@@ -344,8 +362,9 @@ func verifH_StopStates() {
 		verifAssert(srv.isClosing(), "C10.closing-after-graceful-stop")
 	}
 	// afterwards: no new tunnels, new RPCs on old tunnels refused (isClosing is what serveTunnel consults)
-	err := srv.addInstance(&threadSafeOpenReverseTunnelClient{})
-	verifAssert(status.Code(err) == codes.Unavailable, "C10.no-new-tunnels-after-shutdown")
+	stubs.streams = append(stubs.streams, &vRevClientStream{hangup: make(chan struct{}), hold: true})
+	started, err := srv.Serve(context.Background())
+	verifAssert(!started && status.Code(err) == codes.Unavailable, "C10.no-new-tunnels-after-shutdown")
 	verifAssert(verifLiveGoroutines() == 0, "C14.stop-no-goroutine-left")
 	// "GracefulStop returns once those RPCs have finished": with nothing in flight it should not have waited
 	verifAssert(!idleWait, "C10.graceful-stop-returns-once-in-flight-rpcs-finished")
